@@ -366,6 +366,10 @@ def run(ctx, spec):
             r0 = float(10 ** rng.uniform(-1.3, 0))
             n_ops = int(rng.integers(60, 400)) if nreq <= 33 else 30
             history(ctx, aotools, variant, nreq, ps, r0, L0, extra, rng, n_ops)
+    # more stencil columns requested than the screen has rows (n_columns > nx_size; includes a 1-pixel screen with the default of 2):
+    # a legal request -- the stencil is what exists of it -- and the screen must evolve as any other
+    nsmall = [1, 2, 3, 4, 5, 8][spec["shard"] % 6]
+    history(ctx, aotools, "vk", nsmall, 0.1, 0.2, 20.0, nsmall + 1 + (spec["shard"] // 6) % 3, rng, 60)
     # extreme sampling: the construction either refuses (LinAlgError, counted) or must give a stable recursion
     if spec["shard"] < 6:
         ext = [1e-6, 1e-7, 1e-8, 1e-9, 1e-10, 3e-12][spec["shard"]]
